@@ -256,7 +256,7 @@ theorem lookup_some (get : Opaque "ipinfo.IPInfoMap" → List UInt8 → Code.IPI
 theorem start_tie (get : Opaque "ipinfo.IPInfoMap" → List UInt8 → Code.IPInfo × Option String)
     (asSlice : Opaque "netip.Addr" → List UInt8) (asnLabel : Int → String) (now : Nat)
     (c : Code.tunnelTimeMetrics) (t : TT) (k : Code.IPKey) (h : Sim asnLabel c t) :
-    ∃ c', Code.tunnelTimeMetrics.startConnection get asSlice (now : Int) c k = some c' ∧ c'.ip2info = c.ip2info ∧
+    ∃ c', Code.tunnelTimeMetrics.startConnection asSlice get (now : Int) c k = some c' ∧ c'.ip2info = c.ip2info ∧
       Sim asnLabel c' (start t (absKey k) now (locOf asnLabel (lookupInfo get asSlice c k))) := by
   obtain ⟨hact, hpk, hpl, hnd, hnn⟩ := h
   unfold Code.tunnelTimeMetrics.startConnection
@@ -345,13 +345,6 @@ def effsOf (asnLabel : Int → String) (now : Nat) (e : Code.IPKey × Code.activ
 def restart (now : Nat) (e : Code.IPKey × Code.activeClient) : Code.IPKey × Code.activeClient :=
   (e.1, { e.2 with startTime := (now : Int) })
 
-/-- the loop body of the translated `Collect` -/
-def collectBody (asnLabel : Int → String) (now : Nat) (ipKey : Code.IPKey) (c : Code.tunnelTimeMetrics) :
-    Option (ForInStep Code.tunnelTimeMetrics) := do
-  let client := (c.activeClients.get? ipKey).getD Code.activeClient.zero
-  let t ← Code.tunnelTimeMetrics.reportTunnelTime asnLabel c ipKey client (now : Int)
-  pure (ForInStep.yield { ip2info := t.1.ip2info, activeClients := t.1.activeClients.insert ipKey t.2, eff := t.1.eff })
-
 theorem find_in_append {V : Type} (pre rest : List (Code.IPKey × V)) (e : Code.IPKey × V)
     (h : e.1 ∉ pre.map (·.1)) : (pre ++ e :: rest).find? (fun x => x.1 = e.1) = some e := by
   induction pre with
@@ -367,17 +360,29 @@ theorem mapIf_in_append {V : Type} (pre rest : List (Code.IPKey × V)) (e : Code
   rw [List.map_append, List.map_cons, mapIf_absent pre e.1 v h1, mapIf_absent rest e.1 v h2]
   simp
 
-theorem collect_loop (asnLabel : Int → String) (now : Nat) :
+/-- what one iteration of `Collect`'s loop does to the collector, for a key that is registered -/
+def collectStep (asnLabel : Int → String) (now : Nat) (c : Code.tunnelTimeMetrics) (k : Code.IPKey) (cl : Code.activeClient) :
+    Code.tunnelTimeMetrics :=
+  { c with activeClients := c.activeClients.insert k { cl with startTime := (now : Int) },
+           eff := c.eff ++ effsOf asnLabel now (k, cl) }
+
+/-- the loop of `Collect` for ANY body that does `collectStep` on registered keys: every entry is reported once, in
+    map order, and its period restarts -/
+theorem collect_loop (asnLabel : Int → String) (now : Nat)
+    (body : Code.IPKey → Code.tunnelTimeMetrics → Option (ForInStep Code.tunnelTimeMetrics))
+    (hbody : ∀ (k : Code.IPKey) (c : Code.tunnelTimeMetrics) (cl : Code.activeClient),
+      c.activeClients.get? k = some cl → k ∈ c.activeClients.keys →
+      body k c = some (ForInStep.yield (collectStep asnLabel now c k cl))) :
     ∀ (rest pre : List (Code.IPKey × Code.activeClient)) (c : Code.tunnelTimeMetrics),
       c.activeClients.ents = pre ++ rest → ((pre ++ rest).map (·.1)).Nodup →
-      ∃ c', forIn (rest.map (·.1)) c (collectBody asnLabel now) = some c' ∧ c'.ip2info = c.ip2info ∧
-        c'.activeClients.ents = pre ++ rest.map (restart now) ∧
-        c'.eff = c.eff ++ rest.flatMap (effsOf asnLabel now) := by
+      forIn (rest.map (·.1)) c body =
+        some { c with activeClients := ⟨pre ++ rest.map (restart now)⟩, eff := c.eff ++ rest.flatMap (effsOf asnLabel now) } := by
   intro rest
   induction rest with
   | nil =>
     intro pre c h _
-    exact ⟨c, rfl, rfl, by simpa using h, by simp⟩
+    have : c.activeClients = ⟨pre⟩ := by cases hc : c.activeClients; simp [hc] at h; simp [h]
+    simp [← this]
   | cons e rest ih =>
     intro pre c h hnd
     have hnd' := hnd
@@ -391,24 +396,16 @@ theorem collect_loop (asnLabel : Int → String) (now : Nat) :
       rw [GoMap.get?_eq, h, find_in_append pre rest e hpre]; rfl
     have hmem : e.1 ∈ c.activeClients.keys := by
       simp only [GoMap.keys, h, List.map_append, List.map_cons, List.mem_append, List.mem_cons, true_or, or_true]
-    simp only [List.map_cons, List.forIn_cons]
-    simp only [collectBody, hget, Option.getD_some, report_eq, Option.bind_eq_bind, Option.bind_some, pure, bind]
-    let c1 : Code.tunnelTimeMetrics :=
-      { ip2info := c.ip2info,
-        activeClients := GoMap.insert c.activeClients e.1 { e.2 with startTime := (now : Int) },
-        eff := c.eff ++ effsOf asnLabel now e }
-    have hc1 : c1.activeClients.ents = (pre ++ [restart now e]) ++ rest := by
+    simp only [List.map_cons, List.forIn_cons, hbody e.1 c e.2 hget hmem, Option.bind_eq_bind, Option.bind_some]
+    have hc1 : (collectStep asnLabel now c e.1 e.2).activeClients.ents = (pre ++ [restart now e]) ++ rest := by
       show (GoMap.insert c.activeClients e.1 _).ents = _
       rw [GoMap.ents_insert_present _ _ _ hmem, h, mapIf_in_append pre rest e _ hpre hrest]
       simp [restart]
     have hnd1 : (((pre ++ [restart now e]) ++ rest).map (·.1)).Nodup := by
       have : ((pre ++ [restart now e]) ++ rest).map (·.1) = (pre ++ e :: rest).map (·.1) := by simp [restart]
       rw [this]; exact hnd
-    obtain ⟨c', h1, h2, h3, h4⟩ := ih (pre ++ [restart now e]) c1 hc1 hnd1
-    refine ⟨c', ?_, h2, ?_, ?_⟩
-    · exact h1
-    · rw [h3]; simp
-    · rw [h4]; simp [c1, effsOf, List.append_assoc]
+    rw [ih (pre ++ [restart now e]) (collectStep asnLabel now c e.1 e.2) hc1 hnd1]
+    simp [collectStep, List.append_assoc]
 
 theorem fold_counters (asnLabel : Int → String) (now : Nat) :
     ∀ (ents : List (Code.IPKey × Code.activeClient)) (es : List Eff) (t : TT),
@@ -434,27 +431,32 @@ theorem fold_counters (asnLabel : Int → String) (now : Nat) :
     client is reported once and its period restarts), whatever the order of the map -/
 theorem collect_tie (asnLabel : Int → String) (now : Nat) (c : Code.tunnelTimeMetrics) (t : TT)
     (h : Sim asnLabel c t) :
-    ∃ c', Code.tunnelTimeMetrics.Collect (now : Int) asnLabel c = some c' ∧ c'.ip2info = c.ip2info ∧
+    ∃ c', Code.tunnelTimeMetrics.Collect asnLabel (now : Int) c = some c' ∧ c'.ip2info = c.ip2info ∧
       Sim asnLabel c' (collect t now) := by
   obtain ⟨hact, hpk, hpl, hnd, hnn⟩ := h
-  obtain ⟨c', h1, h2, h3, h4⟩ := collect_loop asnLabel now c.activeClients.ents [] c (by simp) (by simpa [GoMap.keys] using hnd)
-  have hcode : Code.tunnelTimeMetrics.Collect (now : Int) asnLabel c = some c' := by
-    have : Code.tunnelTimeMetrics.Collect (now : Int) asnLabel c =
-        (forIn c.activeClients.keys c (collectBody asnLabel now)).bind pure := rfl
-    rw [this]
-    simp only [GoMap.keys] at h1 ⊢
-    rw [h1]; rfl
-  refine ⟨c', hcode, h2, ?_⟩
+  have hloop : Code.tunnelTimeMetrics.Collect asnLabel (now : Int) c =
+      some { c with activeClients := ⟨c.activeClients.ents.map (restart now)⟩,
+                    eff := c.eff ++ c.activeClients.ents.flatMap (effsOf asnLabel now) } := by
+    unfold Code.tunnelTimeMetrics.Collect
+    simp only [GoMap.keys, Option.bind_eq_bind]
+    rw [collect_loop asnLabel now _ ?_ c.activeClients.ents [] c (by simp) (by simpa [GoMap.keys] using hnd)]
+    · rfl
+    · intro k c0 cl hget hmem
+      simp [hget, hmem, report_eq, collectStep, effsOf, GoMap.contains_eq]
+  refine ⟨_, hloop, rfl, ?_⟩
+  have h3 : (⟨c.activeClients.ents.map (restart now)⟩ : GoMap Code.IPKey Code.activeClient).ents = c.activeClients.ents.map (restart now) := rfl
+  have h4 : ({ c with activeClients := ⟨c.activeClients.ents.map (restart now)⟩,
+                      eff := c.eff ++ c.activeClients.ents.flatMap (effsOf asnLabel now) } : Code.tunnelTimeMetrics).eff =
+      c.eff ++ c.activeClients.ents.flatMap (effsOf asnLabel now) := rfl
   have hf := fold_counters asnLabel now c.activeClients.ents c.eff t hpk hpl hnn
-  simp only [List.nil_append] at h3
   unfold collect
   constructor
   · simp only [foldl_report_active, hact, h3, List.map_map]
     apply List.map_congr_left
     intro e _
     simp [absClient, restart]
-  · simp only []; rw [hact, hf.1, h4]
-  · simp only []; rw [hact, hf.2, h4]
+  · simp only []; rw [hact, hf.1]
+  · simp only []; rw [hact, hf.2]
   · rw [GoMap.keys, h3, List.map_map]
     have : ((fun x : Code.IPKey × Code.activeClient => x.1) ∘ restart now) = (fun x => x.1) := by funext x; rfl
     rw [this]; exact hnd
@@ -475,9 +477,9 @@ variable (get : Opaque "ipinfo.IPInfoMap" → List UInt8 → Code.IPInfo × Opti
   (asSlice : Opaque "netip.Addr" → List UInt8) (asnLabel : Int → String)
 
 def codeStep (c : Code.tunnelTimeMetrics) : COp → Option Code.tunnelTimeMetrics
-  | .start k now => Code.tunnelTimeMetrics.startConnection get asSlice (now : Int) c k
+  | .start k now => Code.tunnelTimeMetrics.startConnection asSlice get (now : Int) c k
   | .stop k now => Code.tunnelTimeMetrics.stopConnection asnLabel (now : Int) c k
-  | .collect now => Code.tunnelTimeMetrics.Collect (now : Int) asnLabel c
+  | .collect now => Code.tunnelTimeMetrics.Collect asnLabel (now : Int) c
 
 def codeRun (c : Code.tunnelTimeMetrics) : List COp → Option Code.tunnelTimeMetrics
   | [] => some c
